@@ -301,6 +301,16 @@ type Suite struct {
 func Main(su Suite, replayPath string) int {
 	tier := ev.Tier()
 	scs := su.Scenarios(tier)
+	if only := os.Getenv("VERIF_ONLY"); only != "" {
+		// debugging aid: restrict the run to the scenarios whose name contains the given text
+		var keep []Scenario
+		for _, sc := range scs {
+			if strings.Contains(sc.Name, only) {
+				keep = append(keep, sc)
+			}
+		}
+		scs = keep
+	}
 	if replayPath != "" {
 		return replay(su, scs, replayPath)
 	}
